@@ -23,6 +23,7 @@ type Sample struct {
 	Index  am.S           `json:"index"`
 	Time   []uint64       `json:"time"`
 	StrAll [][]any        `json:"strall"` // [name, tick, listedActive]
+	Str    [][]any        `json:"str"`    // String(): [name, tick] of the states it lists as active
 	Views  *seqdrv.Views  `json:"views,omitempty"`
 }
 
@@ -58,6 +59,11 @@ func Run(c *gen.Case, r *rand.Rand) (lines []any) {
 	sample := func(parked bool) Sample {
 		s := Sample{Ev: "sample", Parked: parked, Index: index}
 		s.StrAll = parseAll(m.StringAll())
+		s.Str = [][]any{}
+		for _, it := range reItem.FindAllStringSubmatch(m.String(), -1) {
+			n, _ := strconv.ParseUint(it[2], 10, 64)
+			s.Str = append(s.Str, []any{it[1], n})
+		}
 		s.Time = append([]uint64{}, m.Time(nil)...)
 		if parked {
 			s.Views = seqdrv.SampleViews(m, index)
@@ -69,7 +75,7 @@ func Run(c *gen.Case, r *rand.Rand) (lines []any) {
 	defer s.Detach()
 	stop := make(chan struct{})
 	var wg sync.WaitGroup
-	for k := 0; k < 2; k++ {
+	for k := 0; k < 3; k++ {
 		wg.Add(1)
 		go func() {
 			defer wg.Done()
@@ -85,10 +91,12 @@ func Run(c *gen.Case, r *rand.Rand) (lines []any) {
 					return
 				default:
 				}
-				if len(mine) < 400 {
+				if len(mine) < 900 {
 					mine = append(mine, sample(false))
 				}
-				time.Sleep(time.Duration(r.Intn(50)) * time.Microsecond)
+				if len(mine)%8 == 0 {
+					time.Sleep(time.Microsecond)
+				}
 			}
 		}()
 	}
